@@ -989,5 +989,9 @@ fn main() {
     if tot.execs < 100_000 || tot.interrupted_execs < 1000 || tot.straddle < 1000 || n_boundary < 50 {
         run.machinery_failure("exploration implausibly small");
     }
+    if std::env::var("VCORE_CHILD").is_err() {
+        // the same enumeration in a build with debug assertions and overflow checks
+        run.run_dbg_child();
+    }
     run.finish(&confirm)
 }
